@@ -218,6 +218,13 @@ FoldFrom(res, acc, s, i) ==
     ELSE LET n == Plus(acc, s[i])
          IN  IF InRes(res, n) THEN FoldFrom(res, n, s, i + 1) ELSE NoneR
 Fold(res, s) == FoldFrom(res, Zero, s, 1)
+\* The property text can also be read as "the exact total, or None iff the total is out of range".  The two
+\* readings differ only for signed sums whose running sum leaves the range and comes back; there both
+\* outcomes are allowed (SumOutcomes), everywhere else they coincide (theorem in MC_Amounts).
+RECURSIVE TotalFrom(_, _)
+TotalFrom(s, i) == IF i > Len(s) THEN Zero ELSE Plus(s[i], TotalFrom(s, i + 1))
+ExactTotal(res, s) == LET t == TotalFrom(s, 1) IN IF InRes(res, t) THEN Val(t) ELSE NoneR
+SumOutcomes(res, s) == {Fold(res, s), ExactTotal(res, s)}
 
 \* Zatoshis::read from a reader holding the bytes bs: fewer than 8 bytes is an io error, otherwise the
 \* first 8 are decoded
